@@ -211,7 +211,8 @@ def run(idx: ProgramIndex, rep: Report, tier: str):
     probs = []
     seen_layouts = set()
     from ..symbolic import inline, walk_paths
-    ilv = "interleaved" if "interleaved" in sn.params else None
+    all_params = sn.params + [a.arg for a in sn.node.args.kwonlyargs]  # positional or keyword-only
+    ilv = "interleaved" if "interleaved" in all_params else None
     if ilv is None:
         raise AnalysisError("anchor vanished: the `interleaved` parameter of _shaped_noise_covar")
     TASK_ATTRS = {"raw_task_noises", "task_noise_covar_factor", "raw_task_noises_constraint", "task_noises"}
